@@ -290,6 +290,45 @@ func init() {
 		fr.resume = &waiter{g: g}
 		return nil, it.block(g, "sleep")
 	})
+	// time.Timer (old asynchronous channel semantics: the repository's go.mod says go 1.20)
+	reg("time.NewTimer", func(it *Interp, g *G, fr *Frame, args []Value, site ssa.Instruction) (Value, stepResult) {
+		d := int64(it.concretize(args[0].(*Term), "time.NewTimer duration"))
+		tp := it.P.pkgs["time"]
+		o := it.newTypedObj(tp.Type("Timer").Type(), "time.Timer")
+		ch := it.newChan(1, it.timeType())
+		o.cells[0] = &ChanV{c: ch}
+		tm := &timer{deadline: it.clock + d, ch: ch, id: len(it.timers)}
+		it.timers = append(it.timers, tm)
+		if it.goTimers == nil {
+			it.goTimers = map[*Obj]*timer{}
+		}
+		it.goTimers[o] = tm
+		return &Ptr{obj: o}, stOK
+	})
+	reg("(*time.Timer).Stop", func(it *Interp, g *G, fr *Frame, args []Value, site ssa.Instruction) (Value, stepResult) {
+		p := args[0].(*Ptr)
+		tm := it.goTimers[p.obj]
+		if tm == nil {
+			it.unsupported("Stop on a timer the engine did not create")
+		}
+		active := !tm.fired && !tm.stopped
+		tm.stopped = true
+		return it.ts.Bool(active), stOK
+	})
+	reg("(*time.Timer).Reset", func(it *Interp, g *G, fr *Frame, args []Value, site ssa.Instruction) (Value, stepResult) {
+		p := args[0].(*Ptr)
+		old := it.goTimers[p.obj]
+		if old == nil {
+			it.unsupported("Reset on a timer the engine did not create")
+		}
+		active := !old.fired && !old.stopped
+		old.stopped = true
+		d := int64(it.concretize(args[1].(*Term), "Timer.Reset duration"))
+		tm := &timer{deadline: it.clock + d, ch: old.ch, id: len(it.timers)}
+		it.timers = append(it.timers, tm)
+		it.goTimers[p.obj] = tm
+		return it.ts.Bool(active), stOK
+	})
 	reg("(time.Time).String", func(it *Interp, g *G, fr *Frame, args []Value, site ssa.Instruction) (Value, stepResult) {
 		return concStr("<time>"), stOK
 	})
